@@ -363,6 +363,16 @@ def c04(tier='quick'):
                         While(Cmp('<=', Var('i', I32), Lit(n, I32)), [Assign(Index(a, Var('i', I32)), Cast(Z, ety)), stepst]),
                         Return(_weights_sum(a, n, ety))]
                 out.append(Template('c04/loop_write_oob/%s/%s' % (tag, step), fn3(body), family='c04-loop', expect='any', unroll=n + 3))
+                # loops that count DOWN through the negative indices: -1 .. -n are valid, -(n+1) must be rejected or panic
+                downst = Assign(Var('i', I32), Bin('-', Var('i', I32), Lit(1, I32))) if step == 'assign' else IncDec(Var('i', I32), '--')
+                body = [mk, Let('i', I32, Lit(-1, I32)),
+                        While(Cmp('>=', Var('i', I32), Lit(-n, I32)), [Assign(Index(a, Var('i', I32)), Cast(Z, ety)), downst]),
+                        Return(_weights_sum(a, n, ety))]
+                out.append(Template('c04/loop_write_down/%s/%s' % (tag, step), fn3(body), family='c04-loop', expect='any', unroll=n + 2))
+                body = [Let('g', I64, Lit(5, I64)), mk, Let('h', I64, Lit(6, I64)), Let('i', I32, Lit(0, I32)),
+                        While(Cmp('>=', Var('i', I32), Lit(-n - 1, I32)), [Assign(Index(a, Var('i', I32)), Cast(Z, ety)), downst]),
+                        Return(Bin('+', _weights_sum(a, n, ety), Bin('+', Var('g', I64), Var('h', I64))))]
+                out.append(Template('c04/loop_write_oob_down/%s/%s' % (tag, step), fn3(body), family='c04-loop', expect='any', unroll=n + 4))
             # constant *expressions* as indices: the element selected must be the one the run-time value of the
             # expression selects (truncating / and %)
             if n >= 3:
@@ -395,23 +405,28 @@ def c04(tier='quick'):
 
 
 # ------------------------------------------------------------------------------------------------ C08 dynamic arrays / strings
-def wide_index_region(ity):
-    """Index values that do not survive the narrowing to i32 the compiler performs before its bounds check (D5)."""
+def wide_index_region(ity, maxlen):
+    """Index values that do not survive the narrowing to i32 the compiler performs before its bounds check AND whose
+    narrowed value lands on an element (in [-maxlen, maxlen)): exactly the inputs on which D5 shows (an out-of-range
+    index aliases an element instead of panicking).  Outside this set the narrowed index is out of range too and the
+    program panics as it must, so the obligation is re-asked there."""
     def f(args):
         z = args[2]
+        low = z3.Extract(31, 0, z)
+        lands = z3.And(low >= z3.BitVecVal(-maxlen, 32), low < z3.BitVecVal(maxlen, 32))
         if ity.bits == 64 and ity.signed:
-            return z3.SignExt(32, z3.Extract(31, 0, z)) != z
+            return z3.And(z3.SignExt(32, low) != z, lands)
         if ity.bits == 64:
-            return z3.UGE(z, z3.BitVecVal(1 << 31, 64))
+            return z3.And(z3.UGE(z, z3.BitVecVal(1 << 31, 64)), lands)
         if ity.bits == 32 and not ity.signed:
-            return z3.UGE(z3.Extract(31, 0, z), z3.BitVecVal(1 << 31, 32))
+            return z3.And(z3.UGE(low, z3.BitVecVal(1 << 31, 32)), lands)
         return z3.BoolVal(False)
     return f
 
 
 def c08(tier='quick'):
     out = []
-    itys = (I8, I32, I64, U8) if tier == 'quick' else (I8, I16, I32, I64, U8, U32, U64)
+    itys = (I8, I32, I64, U8, U32) if tier == 'quick' else (I8, I16, I32, I64, U8, U32, U64)
     etys = (I32,) if tier == 'quick' else (I32, I64, I8)
     for ety in etys:
         DT = DynT(ety)
@@ -427,7 +442,7 @@ def c08(tier='quick'):
                     idx = Cast(Z, ity) if ity != I64 else Z
                     tag = '%s/m%d_p%d/%s' % (ety.name, m, p, ity.name)
                     body = pre + [Let('r', ety, Index(a, idx)), Return(Cast(Var('r', ety), I64))]
-                    reg = {'index_beyond_i32': wide_index_region(ity)} if ity.name in ('i64', 'u64', 'u32') else {}
+                    reg = {'index_beyond_i32': wide_index_region(ity, n)} if ity.name in ('i64', 'u64', 'u32') else {}
                     out.append(Template('c08/read/' + tag, fn3(body), family='c08-opaque-index', regions=reg))
                     body = pre + [Assign(Index(a, idx), Cast(Y, ety)), Let('r', ety, Index(a, Lit(n - 1, I32))), Return(Cast(Var('r', ety), I64))]
                     out.append(Template('c08/write/' + tag, fn3(body), family='c08-opaque-index', regions=reg))
@@ -466,7 +481,7 @@ def c08(tier='quick'):
     sv = Var('s', STR)
     for ity in itys:
         idx = Cast(Z, ity) if ity != I64 else Z
-        reg = {'index_beyond_i32': wide_index_region(ity)} if ity.name in ('i64', 'u64', 'u32') else {}
+        reg = {'index_beyond_i32': wide_index_region(ity, 12)} if ity.name in ('i64', 'u64', 'u32') else {}
         for first, second in (('hi', 'hello, world'), ('hello, world', 'hi')):
             tag = '%d_%d/%s' % (len(first), len(second), ity.name)
             body = [Let('s', STR, StrLit(first)), Let('c', BYTE, Index(sv, idx)), Assign(sv, StrLit(second)),
@@ -489,7 +504,7 @@ def c08(tier='quick'):
         for ity in itys:
             idx = Cast(Z, ity) if ity != I64 else Z
             body = [Let('s', STR, StrLit(s)), Let('c', BYTE, Index(Var('s', STR), idx)), Return(Cast(Var('c', BYTE), I64))]
-            reg = {'index_beyond_i32': wide_index_region(ity)} if ity.name in ('i64', 'u64', 'u32') else {}
+            reg = {'index_beyond_i32': wide_index_region(ity, len(s))} if ity.name in ('i64', 'u64', 'u32') else {}
             out.append(Template('c08/str_read/%d/%s' % (len(s), ity.name), fn3(body), family='c08-string', regions=reg))
     return out
 
@@ -589,6 +604,44 @@ def c18(tier='quick'):
                 If(Cmp('>', Y, Lit(0, I64)), [Assign(o, Cast(X, pty))]), Let('d', pty, Lit(7, pty)), Let('r', pty, Coalesce(o, Var('d', pty))),
                 Return(Bin('+', Bin('+', Cast(Var('r', pty), I64), Var('before', I64)), Var('after', I64)))]
         out.append(Template('c18/opt/%s' % pty.name, fn3(body), family='c18-optional'))
+    # whole-value copies of small, byte-aligned composites (sizes 2, 3, 4, 7 ... bytes): assignment of a struct into an
+    # element of a fixed array of structs, a struct wrapped into / read out of an optional, the optional's discriminant
+    # set and cleared again; every component of the copy, the other element and the neighbouring locals are read back
+    small = [StructT('RGB', [('R', U8), ('G', U8), ('B', U8)]), StructT('P2', [('A', U8), ('B', U8)]),
+             StructT('B7', [('A', U8), ('B', U8), ('C', U8), ('D', U8), ('E', U8), ('F', U8), ('G', U8)]),
+             StructT('M6', [('A', I16), ('B', U8), ('C', U8), ('D', I16)])]
+    if tier != 'quick':
+        small += [StructT('B5', [('A', I8), ('B', I8), ('C', I8), ('D', I8), ('E', I8)]), StructT('W12', [('A', I32), ('B', I32), ('C', I16), ('D', U8)]),
+                  StructT('B11', [(n, U8) for n in 'ABCDEFGHIJK'])]
+    for S in small:
+        AT = ArrT(2, S)
+        px, c = Var('px', AT), Var('c', S)
+        nf = len(S.fields)
+        head = [Let('before', I64, Bin('+', Z, Lit(1000, I64))),
+                Let('px', AT, ArrLit(AT, [StructLit(S, {f: Lit(10 + k, ft) for k, (f, ft) in enumerate(S.fields)}), StructLit(S, {f: Lit(40 + k, ft) for k, (f, ft) in enumerate(S.fields)})])),
+                Let('after', I64, Bin('-', Z, Lit(1000, I64))),
+                Let('c', S, StructLit(S, {f: Cast(Bin('+', X, Lit(k, I64)), ft) for k, (f, ft) in enumerate(S.fields)}))]
+        for el in (0, 1):
+            for k, (f, ft) in enumerate(S.fields):
+                for rel in (0, 1):
+                    body = head + [Assign(Index(px, Lit(el, I32)), c), Let('r', ft, Field(Index(px, Lit(rel, I32)), f)), Return(Cast(Var('r', ft), I64))]
+                    out.append(Template('c18/arrelem/%s/w%d/r%d_%s' % (S.name, el, rel, f), fn3(body, types=[S]), family='c18-copy'))
+            for nb in ('before', 'after'):
+                body = head + [Assign(Index(px, Lit(el, I32)), c), Return(Var(nb, I64))]
+                out.append(Template('c18/arrelem/%s/w%d/%s' % (S.name, el, nb), fn3(body, types=[S]), family='c18-copy'))
+        OT = OptT(S)
+        oc = Var('oc', OT)
+        ohead = [Let('before', I64, Bin('+', Z, Lit(1000, I64))), Let('oc', OT, NoneLit(OT)), Let('after', I64, Bin('-', Z, Lit(1000, I64))),
+                 Let('c', S, StructLit(S, {f: Cast(Bin('+', X, Lit(k, I64)), ft) for k, (f, ft) in enumerate(S.fields)})),
+                 If(Cmp('>', Y, Lit(0, I64)), [Assign(oc, c)])]
+        for k, (f, ft) in enumerate(S.fields):
+            body = ohead + [Let('r', I64, Lit(-1, I64)), If(IsSome(oc), [Assign(Var('r', I64), Cast(Field(Unwrap(oc), f), I64))]), Return(Var('r', I64))]
+            out.append(Template('c18/optstruct/%s/r_%s' % (S.name, f), fn3(body, types=[S]), family='c18-copy'))
+        # discriminant: set, cleared, set again
+        body = ohead + [Let('r', I64, Lit(0, I64)), If(IsSome(oc), [OpAssign(Var('r', I64), '+', Lit(1, I64))]), Assign(oc, NoneLit(OT)),
+                        If(IsSome(oc), [OpAssign(Var('r', I64), '+', Lit(10, I64))]), Assign(oc, c), If(IsSome(oc), [OpAssign(Var('r', I64), '+', Lit(100, I64))]),
+                        Return(Bin('+', Var('r', I64), Bin('+', Var('before', I64), Var('after', I64))))]
+        out.append(Template('c18/optstruct/%s/flag' % S.name, fn3(body, types=[S]), family='c18-copy'))
     return out
 
 
@@ -663,6 +716,9 @@ def c05_shapes(depth):
                 yield ('ifelse(%s,%s)' % (n1, n2), lambda c, f1=f1, f2=f2: [If(c.cond(), f1(c), f2(c))])
                 yield ('match(%s,_%s)' % (n1, n2), lambda c, f1=f1, f2=f2: [Match(c.subj(), [(Lit(1, I64), f1(c)), (None, f2(c))])])
                 yield ('matchnd(%s,%s)' % (n1, n2), lambda c, f1=f1, f2=f2: [Match(c.subj(), [(Lit(1, I64), f1(c)), (Lit(2, I64), f2(c))])])
+                # the default arm is not the last one: the arms written after it are still live in the generated code
+                yield ('matchdf(_%s,%s)' % (n1, n2), lambda c, f1=f1, f2=f2: [Match(c.subj(), [(None, f1(c)), (Lit(1, I64), f2(c))])])
+                yield ('matchdm(%s,_%s,%s)' % (n1, n2, n1), lambda c, f1=f1, f2=f2: [Match(c.subj(), [(Lit(1, I64), f1(c)), (None, f2(c)), (Lit(2, I64), f1(c))])])
                 yield ('elif(%s,%s)' % (n1, n2), lambda c, f1=f1, f2=f2: [If(c.cond(), f1(c), If(c.cond(), f2(c)))])
                 yield ('elifelse(%s,%s)' % (n1, n2), lambda c, f1=f1, f2=f2: [If(c.cond(), f1(c), If(c.cond(), f2(c), [c.ret()]))])
     return list(gen(depth)), Ctx
